@@ -80,7 +80,8 @@ def generate(rng, tier, index):
         if roll < 0.35:
             probes[pid] = {"fix": False}
         else:
-            probes[pid] = {"fix": True, "level": rng.choice([0, 0, 1, 2, 3, 4, 5, 7])}
+            used = {cfg.get("level") for cfg in probes.values() if cfg.get("fix")}
+            probes[pid] = {"fix": True, "level": rng.choice([lv for lv in [0, 0, 1, 2, 3, 4, 5, 7] if lv not in used])}
     disabled = None
     if len(probe_ids) >= 2 and rng.random() < 0.4:
         disabled = rng.choice(probe_ids)
@@ -321,6 +322,7 @@ def evaluate(sc):
     for op_index, op in enumerate(sc["ops"]):
         mode = op["mode"]
         view = OpView(result["ops"][op_index])
+        errored_files = set(view.err0)
         aborted = bool(view.exc) or any(marker in view.stderr for marker in ("Unexpected Error", "Configuration Error", "BadPluginError encountered", "BadTokenizationError encountered"))
         for plugin in sc["record"]:
             probe_cfg = sc["probes"].get(plugin)
@@ -335,6 +337,10 @@ def evaluate(sc):
                 in_faulted = faulted_file is not None and segment["file"] == faulted_file and op_index == faulted_op
                 if in_faulted:
                     stats["fault_cut_short"] += 1
+                    shape, issue = "cut", None
+                if segment["file"] in errored_files:
+                    # a (natural) contained rule/parser error in this file cuts its brackets short
+                    stats["natural_error_cut_short"] += 1
                     shape, issue = "cut", None
                 if issue and aborted and segment["file"] == (per_op[op_index][-1]["file"]):
                     shape, issue = "cut", None
